@@ -204,13 +204,26 @@ def lexer_table(ctx):
     return t, m, hir
 
 
+_PROG = [None]
+
+
 def _context_guard(g):
     """`self.before_from || self.after_where`: the places where symbol operators are recognised too"""
-    ds = [render(peel(d, methods=False)) for d in disjuncts(g)]
-    return sorted(ds) == ["self.after_where", "self.before_from"]
+    import interp
+    ids = {y["res"] for y in walk_exprs(g) if y["k"] == "Path" and y.get("rk") == "Local"}
+    try:
+        for bf in (False, True):
+            for aw in (False, True):
+                selfv = {"before_from": bf, "after_where": aw, "after_open": False, "after_operator": False, "possible_search_root": False}
+                if interp.Interp(prog=_PROG[0]).ev(g, {i: selfv for i in ids}) != (bf or aw):
+                    return False
+    except interp.Undecided:
+        return False
+    return True
 
 
 def r3(ctx):
+    _PROG[0] = ctx.prog
     t, m, hir = lexer_table(ctx)
     locs = Locals(hir)
     low = tables.is_lowercased(m["scrut"], locs)
